@@ -165,6 +165,13 @@ def run(ctx, part):
     def nd(v):
         return max(1, (abs(v).bit_length() + W - 1) // W)
 
+    def stale():
+        """what a separate output object holds before the call: a value of either sign and of any length the object
+        admits, left by an earlier computation (results must not depend on it)"""
+        bits = rng.choice([0, 1, W - 1, W, 70, 2 * W + 3, W * half, W * (CAP - 1)])
+        v = rng.getrandbits(bits) if bits else 0
+        return -v if rng.random() < 0.5 else v
+
     def verdict(op, cls, alias, out, exp, ins, res, may_err=False):
         """common result handling: error policy, value, normal form, input immutability"""
         key = ctx.cur_key
@@ -199,7 +206,7 @@ def run(ctx, part):
                     continue
                 R.bn_put(a, x)
                 R.bn_put(b, y)
-                R.bn_put(c, rng.getrandbits(70))
+                R.bn_put(c, stale())
                 pa = a
                 pb = a if alias == 3 else b
                 out = c if alias in (0, 3) else (a if alias == 1 else b)
@@ -218,7 +225,7 @@ def run(ctx, part):
                 if not ctx.begin("bn_%s|%s" % (op, cls), [hx(x)], nontrivial=bool(x)):
                     continue
                 R.bn_put(a, x)
-                R.bn_put(c, rng.getrandbits(70))
+                R.bn_put(c, stale())
                 out = a if alias else c
                 res = R.call("bn_" + op, out, a)
                 me = (2 * nd(x) > CAP) if op.startswith("sqr") else (op == "dbl" and nd(x) + 1 > CAP)
@@ -244,7 +251,7 @@ def run(ctx, part):
                     if not ctx.begin("bn_%s|%s" % (op, cls), [hx(x), hx(dg)], nontrivial=bool(x)):
                         continue
                     R.bn_put(a, x)
-                    R.bn_put(c, rng.getrandbits(70))
+                    R.bn_put(c, stale())
                     if op == "div_dig":
                         res = R.call("bn_div_dig", out, a, dg)
                     else:
@@ -281,7 +288,7 @@ def run(ctx, part):
                     if not ctx.begin("bn_%s|%s" % (op, cls), [hx(x), hx(dg)], nontrivial=bool(x or dg)):
                         continue
                     R.bn_put(a, x)
-                    R.bn_put(c, rng.getrandbits(70))
+                    R.bn_put(c, stale())
                     res = R.call("bn_" + op, out, a, dg)
                     verdict(op, cls, alias, out, exp, [(a, x)], res, may_err=nd(x) + 1 > CAP)
             elif op in shifts:
@@ -302,7 +309,7 @@ def run(ctx, part):
                     if not ctx.begin("bn_%s|%s" % (op, cls), [hx(x), s], nontrivial=bool(x)):
                         continue
                     R.bn_put(a, x)
-                    R.bn_put(c, rng.getrandbits(70))
+                    R.bn_put(c, stale())
                     res = R.call("bn_" + op, out, a, s)
                     verdict(op, cls, alias, out, exp, [(a, x)], res, may_err=(op == "lsh" and nd(x) + s // W + 1 > CAP))
                 elif op == "mod_2b":
@@ -314,7 +321,7 @@ def run(ctx, part):
                     if not ctx.begin("bn_mod_2b|%s" % cls, [hx(x), s], nontrivial=bool(x)):
                         continue
                     R.bn_put(a, x)
-                    R.bn_put(c, rng.getrandbits(70))
+                    R.bn_put(c, stale())
                     res = R.call("bn_mod_2b", out, a, s)
                     verdict(op, cls, alias, out, x % (1 << s), [(a, x)], res)
                 elif op == "set_2b":
@@ -443,8 +450,8 @@ def run(ctx, part):
                     continue
                 R.bn_put(a, x)
                 R.bn_put(b, y)
-                R.bn_put(c, rng.getrandbits(70))
-                R.bn_put(d, rng.getrandbits(70))
+                R.bn_put(c, stale())
+                R.bn_put(d, stale())
                 pa = a
                 pb = a if alias == 5 else b
                 pc = {1: a, 2: b}.get(alias, c)
